@@ -224,14 +224,29 @@ def observe_with_tlc(name, obs_list, workers=1):
   return verdicts, r
 
 
+MAX_DUMPS = 60000      # terminal states parsed per exploration (a deterministic subset of the lines beyond that)
+
+
 def design_run(name, consts, invariants, dump=True, workers=16, timeout=3600, coverage=False):
   r = tlc.run(name, "Pipeline", consts, invariants=invariants, constraints=["DumpC"] if dump else [], workers=workers,
               timeout=timeout, coverage=coverage)
   dumps = {}
   if dump:
+    import zlib  # pylint: disable=g-import-not-at-top
     from harness import synth  # pylint: disable=g-import-not-at-top
     lines = r.printed("DUMP")
-    parsed = r.json_dumps()
+    r.dump_total = len(lines)
+    if len(lines) > MAX_DUMPS:
+      # every state was checked by TLC; only a subset of the terminal states is kept for the replay (memory): chosen by a hash
+      # of the line, so the choice does not depend on the order in which TLC's workers printed them
+      m = len(lines) // MAX_DUMPS + 1
+      lines = [l for l in lines if zlib.crc32(l.encode()) % m == 0]
+    parsed = []
+    for line in lines:
+      try:
+        parsed.append(json.loads(json.loads(line[line.index(",") + 1:line.rindex(">>")].strip())))
+      except Exception:  # pylint: disable=broad-except
+        continue
     for d in parsed:
       dumps.setdefault(synth.scn_key(d["scn"]), d)
     r.dump_lines, r.dump_parsed = len(lines), len(parsed)
